@@ -176,7 +176,9 @@ AStart(a) ==
        THEN /\ mem' = [mem EXCEPT ![a].st = RU]
             /\ dur' = [dur EXCEPT ![a] = [mem[a] EXCEPT !.st = RU]]
             /\ Emit([EvW(a) EXCEPT !.st = RU])
-       ELSE UNCHANGED <<mem, dur>> /\ Silent
+       ELSE IF mem[a].st \in {CO, FA} /\ Dirty(a)      \* runAction skips a finished action; its deferred UpdateAction stores
+         THEN UNCHANGED mem /\ Write(a) /\ Emit(EvW(a))  \* what recovery (fixAction) had repaired in memory only
+         ELSE UNCHANGED <<mem, dur>> /\ Silent
   /\ am' = [am EXCEPT ![a] = IF mem[a].st \in {NS, RU} THEN "exec" ELSE "done"]
   /\ UNCHANGED <<ncall, fate>> /\ UNCH_MAIN
 \* exec: out of budget => permanent stop; otherwise the plugin is invoked
@@ -403,7 +405,9 @@ MPlanStartCont ==
 MExecBlock ==
   /\ pc = "ExecBlock"
   /\ IF cb > NBk THEN Goto("PlanPost") /\ UNCHANGED <<mem, dur, cb>> /\ Silent
-     ELSE IF mem[BlkName].st \in {CO, FA} THEN cb' = cb + 1 /\ UNCHANGED <<pc, mem, dur>> /\ Silent
+     ELSE IF mem[BlkName].st \in {CO, FA}     \* skipBlock; the deferred UpdateBlock stores what recovery fixed in memory
+          THEN /\ cb' = cb + 1 /\ UNCHANGED <<pc, mem>>
+               /\ IF Dirty(BlkName) THEN Write(BlkName) /\ Emit(EvW(BlkName)) ELSE UNCHANGED dur /\ Silent
      ELSE /\ mem' = [mem EXCEPT ![BlkName].st = RU]
           /\ IF dur[BlkName].st # RU THEN dur' = [dur EXCEPT ![BlkName].st = RU] /\ Emit([EvW(BlkName) EXCEPT !.st = RU])
                                       ELSE UNCHANGED dur /\ Silent
